@@ -171,6 +171,15 @@ func (s *Solver) define(t *Term) {
 	}
 }
 
+// Prepare makes sure the given terms are declared/defined; to be called BEFORE the
+// check-sat whose model will be queried for them (cvc5 does not keep a model valid across
+// intervening definitions).
+func (s *Solver) Prepare(terms []*Term) {
+	for _, t := range terms {
+		s.define(t)
+	}
+}
+
 func (s *Solver) Push() {
 	s.raw("(push 1)")
 	s.level++
